@@ -13,6 +13,11 @@
 use crate::util::*;
 use std::collections::BTreeMap;
 
+#[path = "c11raw.rs"]
+mod raw;
+#[path = "c11gen.rs"]
+mod rawgen;
+
 // ------------------------------------------------------------------------------------------------
 // requests
 // ------------------------------------------------------------------------------------------------
@@ -191,10 +196,22 @@ enum Observed {
 }
 
 fn run_real(files: &[(String, String)]) -> Observed {
-    let r = guard(|| {
+    run_real_defs(files, &[])
+}
+
+fn run_real_defs(files: &[(String, String)], defs: &[(String, String)]) -> Observed {
+    run_real_full(files, defs).0
+}
+
+/// observation + the flat list of token spellings that reached the output
+fn run_real_full(files: &[(String, String)], defs: &[(String, String)]) -> (Observed, Vec<String>) {
+    let mut flat: Vec<String> = Vec::new();
+    let flat_ref = &mut flat;
+    let r = guard(move || {
         let mut sm = rssl_text::SourceManager::new();
         let mut inc = MemFiles(files.to_vec());
-        match rssl_preprocess::preprocess("main.rssl", &mut sm, &mut inc, &[]) {
+        let d: Vec<(&str, &str)> = defs.iter().map(|(a, b)| (a.as_str(), b.as_str())).collect();
+        match rssl_preprocess::preprocess("main.rssl", &mut sm, &mut inc, &d) {
             Ok(tokens) => {
                 let mut lines: Vec<String> = Vec::new();
                 let mut cur: Vec<String> = Vec::new();
@@ -205,7 +222,9 @@ fn run_real(files: &[(String, String)]) -> Observed {
                             cur.clear();
                         }
                     } else if !t.0.is_whitespace() {
-                        cur.push(rssl_preprocess::unlex(std::slice::from_ref(t), &sm));
+                        let sp = rssl_preprocess::unlex(std::slice::from_ref(t), &sm);
+                        flat_ref.push(sp.clone());
+                        cur.push(sp);
                     }
                 }
                 if !cur.is_empty() {
@@ -220,9 +239,132 @@ fn run_real(files: &[(String, String)]) -> Observed {
             }
         }
     });
-    match r {
+    let o = match r {
         Ok(o) => o,
         Err(p) => Observed::Panic(p),
+    };
+    (o, flat)
+}
+
+fn pct(s: &str) -> String {
+    let mut o = String::new();
+    for c in s.chars() {
+        match c {
+            '%' => o.push_str("%25"),
+            ' ' => o.push_str("%20"),
+            '\t' => o.push_str("%09"),
+            '\n' => o.push_str("%0A"),
+            '\r' => o.push_str("%0D"),
+            c => o.push(c),
+        }
+    }
+    o
+}
+
+/// the token stream the real lexer produces for one text, in the model's spelling; `X` = the lexer fails
+/// here.  With `directives` the `inside_include` lexing mode is switched as `preprocess_included_file` does.
+fn model_tokens(text: &str, trailing_endline: bool, directives: bool) -> String {
+    use rssl_text::tokens::{FollowedBy, Token};
+    let r = guard(|| {
+        let mut sm = rssl_text::SourceManager::new();
+        let (fid, loc) = sm.add_fragment(text);
+        let contents = sm.get_contents(fid).to_string();
+        let ts = rssl_preprocess::verif::TokenStream::new(&contents, loc);
+        let mut ts = if trailing_endline { ts } else { ts.suppress_trailing_endline() };
+        let mut out: Vec<String> = Vec::new();
+        // 0 start of line, 1 command start, 2 command contents, 3 normal contents
+        let mut state = 0u8;
+        let mut inside_include = false;
+        while !ts.end_of_stream() {
+            let tok = match ts.next(inside_include && directives) {
+                Ok(t) => t,
+                Err(_) => {
+                    out.push("X".into());
+                    break;
+                }
+            };
+            let sp = rssl_preprocess::unlex(std::slice::from_ref(&tok), &sm);
+            let ws = tok.0.is_whitespace();
+            match (&tok.0, state) {
+                (Token::Endline, _) => {
+                    state = 0;
+                    inside_include = false;
+                }
+                (Token::Hash, 0) => state = 1,
+                (t, 1) if !ws => {
+                    state = 2;
+                    if let Token::Id(id) = t {
+                        if id.0 == "include" {
+                            inside_include = true;
+                        }
+                    }
+                }
+                (_, 0) => {
+                    if !ws {
+                        state = 3;
+                    }
+                }
+                _ => {}
+            }
+            out.push(match &tok.0 {
+                Token::Id(id) => format!("i{}", id.0),
+                Token::LiteralInt(_) | Token::LiteralIntUnsigned32(_) => format!("n{}", sp),
+                Token::LeftParen => "(".into(),
+                Token::RightParen => ")".into(),
+                Token::Comma => ",".into(),
+                Token::Endline => "E".into(),
+                Token::Whitespace | Token::Comment | Token::PhysicalEndline => "w".into(),
+                Token::HashHash => "##".into(),
+                Token::LeftAngleBracket(FollowedBy::Token) => "p<~".into(),
+                Token::LeftAngleBracket(FollowedBy::Whitespace) => "p<".into(),
+                Token::RightAngleBracket(FollowedBy::Token) => "p>~".into(),
+                Token::RightAngleBracket(FollowedBy::Whitespace) => "p>".into(),
+                _ => format!("p{}", pct(&sp)),
+            });
+        }
+        out.join(" ")
+    });
+    r.unwrap_or_else(|_| "X".into())
+}
+
+/// does a known divergence in a skipped group explain this error variant?
+fn explained_by_hint(hints: &std::collections::BTreeSet<&'static str>, v: &str) -> Option<&'static str> {
+    if v == "LexerError" && hints.contains("unlexable-in-skipped") {
+        Some("skipped-group lexer-error")
+    } else if v == "UnknownCommand" && hints.contains("nonident-directive-in-skipped") {
+        Some("skipped-group non-identifier-directive")
+    } else if (v == "InvalidElse" || v == "InvalidEndIf") && hints.contains("junk-after-else-endif-in-skipped") {
+        Some("skipped-group junk-after-else-endif")
+    } else {
+        None
+    }
+}
+
+fn judge_raw(rr: &raw::RefResult, obs: &Observed, flat: &[String]) -> String {
+    match (&rr.expected, obs) {
+        (_, Observed::Panic(p)) => format!("FAIL:panic {}", p),
+        (raw::Expected::Skip(why), _) => format!("SKIP:{}", why),
+        (raw::Expected::Accept(toks), Observed::Ok(_)) => {
+            let want = raw::normalise(toks);
+            let got = raw::normalise(flat);
+            if want == got {
+                "ok".into()
+            } else {
+                format!("FAIL:selection differs, C rules give {}", toks.join(" "))
+            }
+        }
+        (raw::Expected::Accept(_), Observed::Err(v)) => match explained_by_hint(&rr.hints, v) {
+            Some(class) => format!("FAIL:{} rejected ({})", class, v),
+            None => format!("FAIL:well-formed input rejected with {}", v),
+        },
+        (raw::Expected::Reject(kind, _), Observed::Ok(_)) => format!("FAIL:{} accepted", kind),
+        (raw::Expected::Reject(kind, want), Observed::Err(v)) => {
+            if want.is_empty() || want == v || explained_by_hint(&rr.hints, v).is_some() {
+                "ok".into()
+            } else {
+                format!("FAIL:{} reported as {}", kind, v)
+            }
+        }
     }
 }
 
@@ -637,6 +779,7 @@ struct Stats {
     cond_depth: Hist,
     ops: Hist,
     styles: Hist,
+    raw_verdict: Hist,
 }
 
 fn max_depth(dirs: &[Dir]) -> usize {
@@ -715,8 +858,87 @@ fn do_request(line: &str, out: &mut Out, st: &mut Stats) {
             st.oracle.add(oracle.split(':').next().unwrap_or(""));
             out.case(line, &observation, &oracle);
         }
+        ["C11.raw", defs, rest @ ..] if !rest.is_empty() => {
+            // fields from `@toks` on are derived (the lexer's token streams, for the model): recomputed here
+            let rest: &[&str] = match rest.iter().position(|x| *x == "@toks") {
+                Some(k) => &rest[..k],
+                None => rest,
+            };
+            if rest.is_empty() {
+                out.case(line, "bad-request", "SKIP:bad request");
+                return;
+            }
+            let Some(defs) = parse_defs(defs) else {
+                out.case(line, "bad-request", "SKIP:bad request");
+                return;
+            };
+            let mut files = vec![("main.rssl".to_string(), unescape(rest[0]))];
+            for f in &rest[1..] {
+                let p: Vec<&str> = f.splitn(2, '=').collect();
+                if p.len() == 2 {
+                    files.push((p[0].to_string(), unescape(p[1])));
+                }
+            }
+            st.ops.add("raw");
+            let (obs, flat) = run_real_full(&files, &defs);
+            let rr = raw::Ref::new(&files).run(&defs);
+            for s in &rr.stats {
+                st.kinds.add(s);
+            }
+            for h in &rr.hints {
+                st.kinds.add(&format!("skipped-has:{}", h));
+            }
+            let oracle = judge_raw(&rr, &obs, &flat);
+            match &obs {
+                Observed::Ok(l) => {
+                    st.outcome.add("ok");
+                    st.lines_kept.add(&format!("{}", l.len().min(9)));
+                }
+                Observed::Err(v) => st.outcome.add(v),
+                Observed::Panic(_) => st.outcome.add("panic"),
+            }
+            st.oracle.add(&match &rr.expected {
+                raw::Expected::Accept(_) => "raw-accept".to_string(),
+                raw::Expected::Reject(k, _) => format!("raw-reject:{}", k),
+                raw::Expected::Skip(w) => format!("raw-skip:{}", w.split(':').next().unwrap_or("")),
+            });
+            st.raw_verdict.add(oracle.split(' ').next().unwrap_or("").split('(').next().unwrap_or(""));
+            let mut echo: Vec<String> = vec!["C11.raw".to_string(), f[1].to_string()];
+            echo.extend(rest.iter().map(|x| x.to_string()));
+            echo.push("@toks".into());
+            for (n, v) in &defs {
+                echo.push(format!("D {}", model_tokens(&format!("{} {}", n, v), false, false)));
+            }
+            for (n, t) in &files {
+                echo.push(format!("F {} {}", n, model_tokens(t, true, true)));
+            }
+            out.case(&echo.join("\t"), &show_observed(&obs), &oracle);
+        }
         _ => out.case(line, "bad-request", "SKIP:bad request"),
     }
+}
+
+fn unescape(s: &str) -> String {
+    let mut o = String::new();
+    let mut it = s.chars();
+    while let Some(c) = it.next() {
+        if c == '\\' {
+            match it.next() {
+                Some('n') => o.push('\n'),
+                Some('r') => o.push('\r'),
+                Some('t') => o.push('\t'),
+                Some('\\') => o.push('\\'),
+                Some(x) => {
+                    o.push('\\');
+                    o.push(x)
+                }
+                None => o.push('\\'),
+            }
+        } else {
+            o.push(c);
+        }
+    }
+    o
 }
 
 fn style_of(f: Option<&&str>) -> u8 {
@@ -973,6 +1195,27 @@ fn random_runs(r: &mut Rng, n: u64, out: &mut Out, st: &mut Stats) {
     }
 }
 
+fn random_raw(r: &mut Rng, n: u64, n_cond: u64, n_deep: u64, out: &mut Out, st: &mut Stats) {
+    let mut kinds = Hist::default();
+    for i in 0..(n + n_cond + n_deep) {
+        let case = {
+            let mut g = rawgen::G::new(r, &mut kinds);
+            if i < n {
+                g.case()
+            } else if i < n + n_cond {
+                g.cond_case()
+            } else {
+                let depth = 20 + g.r.below(400) as usize;
+                g.deep_case(depth)
+            }
+        };
+        do_request(&rawgen::request_of(&case), out, st);
+    }
+    for (k, v) in kinds.0 {
+        *st.kinds.0.entry(format!("raw:{}", k)).or_insert(0) += v;
+    }
+}
+
 pub fn run(args: &Args, out: &mut Out) {
     let mut st = Stats::default();
     if let Some(lines) = args.request_lines() {
@@ -985,6 +1228,7 @@ pub fn run(args: &Args, out: &mut Out) {
     let mut max_len = if args.thorough() { 7 } else { 6 };
     let mut n_cond = if args.thorough() { 400_000 } else { 60_000 };
     let mut n_run = if args.thorough() { 200_000 } else { 30_000 };
+    let mut n_raw = if args.thorough() { 300_000 } else { 40_000 };
     let mut i = 0;
     while i < args.extra.len() {
         match args.extra[i].as_str() {
@@ -994,6 +1238,10 @@ pub fn run(args: &Args, out: &mut Out) {
             }
             "--conds" => {
                 n_cond = args.extra[i + 1].parse().unwrap_or(n_cond);
+                i += 2;
+            }
+            "--raws" => {
+                n_raw = args.extra[i + 1].parse().unwrap_or(n_raw);
                 i += 2;
             }
             "--runs" => {
@@ -1014,14 +1262,16 @@ pub fn run(args: &Args, out: &mut Out) {
     if let Some(n) = args.n {
         n_cond = n;
         n_run = n;
+        n_raw = n;
     }
     let mut r = Rng::new(args.seed.wrapping_add(shard.0.wrapping_mul(0x1000_0000_01B3)));
     let share = |n: u64| n / shard.1 + if shard.0 < n % shard.1 { 1 } else { 0 };
     exhaustive(max_len, shard, out, &mut st);
     random_conds(&mut r.fork(), share(n_cond), out, &mut st);
     random_runs(&mut r.fork(), share(n_run), out, &mut st);
+    random_raw(&mut r.fork(), share(n_raw), share(n_raw / 2), share(n_raw / 400), out, &mut st);
     out.stat(&format!(
-        "{{\"exhaustive_max_len\":{},\"ops\":{},\"outcome\":{},\"oracle\":{},\"max_nesting\":{},\"lines_kept\":{},\"kinds\":{},\"cond_value\":{},\"cond_operators\":{},\"cond_depth\":{},\"whitespace_style\":{}}}",
+        "{{\"exhaustive_max_len\":{},\"ops\":{},\"outcome\":{},\"oracle\":{},\"max_nesting\":{},\"lines_kept\":{},\"kinds\":{},\"cond_value\":{},\"cond_operators\":{},\"cond_depth\":{},\"whitespace_style\":{},\"raw_verdict\":{}}}",
         max_len,
         st.ops.json(),
         st.outcome.json(),
@@ -1032,6 +1282,7 @@ pub fn run(args: &Args, out: &mut Out) {
         st.cond_value.json(),
         st.cond_ops.json(),
         st.cond_depth.json(),
-        st.styles.json()
+        st.styles.json(),
+        st.raw_verdict.json()
     ));
 }
